@@ -57,6 +57,30 @@ theorem nodupFilters_filtersOf (p : Prog) : nodupFilters p = true → ∀ f ∈ 
   | throwBad _ => intro _ f hf; simp [filtersOf] at hf
   | rethrow => intro _ f hf; simp [filtersOf] at hf
 
+/-- inside the object domain no filter lists NULL -/
+theorem inDomain_filtersOf (p : Prog) : inDomain p = true → ∀ f ∈ filtersOf p, 0 ∉ f := by
+  induction p with
+  | seq p q ihp ihq =>
+    intro h f hf
+    simp only [inDomain, Bool.and_eq_true] at h
+    simp only [filtersOf, List.mem_append] at hf
+    rcases hf with hf | hf
+    · exact ihp h.1 f hf
+    · exact ihq h.2 f hf
+  | call p ih => intro h f hf; exact ih (by simpa [inDomain] using h) f (by simpa [filtersOf] using hf)
+  | tryCatch b g h ihb ihh =>
+    intro hn f hf
+    simp only [inDomain, Bool.and_eq_true] at hn
+    simp only [filtersOf, List.mem_append, List.mem_cons] at hf
+    rcases hf with hf | hf | hf
+    · exact ihb hn.1.1 f hf
+    · subst hf; simpa using hn.1.2
+    · exact ihh hn.2 f hf
+  | stmt _ => intro _ f hf; simp [filtersOf] at hf
+  | throw _ => intro _ f hf; simp [filtersOf] at hf
+  | throwBad _ => intro _ f hf; simp [filtersOf] at hf
+  | rethrow => intro _ f hf; simp [filtersOf] at hf
+
 /-- **Refinement, for any filter walk that decides the program's filters by membership.** -/
 theorem runWith_refines (dec : List Nat → Nat → Walk) (maxDepth : Nat) (p : Prog) :
     ∀ (x : Nat) (s : St), s.active = false → s.depth + nest p ≤ maxDepth →
@@ -206,6 +230,8 @@ theorem runWith_safe (dec : List Nat → Nat → Walk) (hdec : ∀ f obj, dec f 
             by_cases hd : s.depth ≥ 1 <;> simp [hd, Safe] <;> omega
           | hang => exact absurd hdc (hdec f s3.obj)
           | nullCmp =>
+            by_cases hd : s.depth ≥ 1 <;> simp [hd, Safe] <;> omega
+          | cmpRaises exc =>
             by_cases hd : s.depth ≥ 1 <;> simp [hd, Safe] <;> omega
       cases g with
       | normal => simp only [Safe] at hb; exact key s2 hb.1
